@@ -60,6 +60,7 @@ if [ -z "${__V-}" ]; then
     echo "}" >> %(out)s
   done
   __oifs=$IFS; IFS=:
+  if [ -z "${__NPC-}" ]; then
   for __p in ${LD_LIBRARY_PATH-}; do
     if [ -f "$__p/toolid.txt" ]; then
       echo "L {" >> %(out)s
@@ -76,6 +77,7 @@ if [ -z "${__V-}" ]; then
       echo "}" >> %(out)s;;
     esac
   done
+  fi
   IFS=$__oifs
   for __t in t0 t1; do
     if [ -n "${BOB_TOOL_PATHS[$__t]+x}" ]; then
@@ -117,8 +119,10 @@ def recorder(fid, step, kind="plain", inc=None):
     inc = (mode, name): the fragment includes recipes/inc/<name> as quoted literal ("q") or as file ("f")"""
     out = OUTFILE[step]
     kinds = set(kind.split("+"))
-    pc = (_PATHNAME if "npc" in kinds else _PATHCONTENT) % {"out": out}
-    txt = "# verif fragment %d\n" % fid + (_COMMON % {"out": out, "pathcontent": pc}).lstrip("\n")
+    pc = _PATHCONTENT % {"out": out}
+    # kind "npc" (artifact checks): nothing is recorded about the directories in PATH / LD_LIBRARY_PATH - weak tools put
+    # directories there that Build-Ids deliberately ignore, and directory names are no tracked input at all
+    txt = "# verif fragment %d\n" % fid + ("__NPC=1\n" if "npc" in kinds else "") + (_COMMON % {"out": out, "pathcontent": pc}).lstrip("\n")
     if inc:
         if inc[0] == "q":
             txt += 'echo "I "$<\'inc/%s\'> >> %s\n' % (inc[1], out)
